@@ -98,42 +98,42 @@ def ints_ok(ints, ranges):
     return True
 
 
-def build(cls, lv, L=3, depth=0, max_depth=4, opt=False, intpath=True):
-    """-> (instance, reference data bytes).  L: length used for octet-like leaves at this level."""
+def value(cls, lv, L=3, depth=0, max_depth=4, opt=False, intpath=True):
+    """-> (constructor argument, reference data bytes).  L: length used for octet-like leaves at this level."""
     t = type_of(cls)
     name = cls.__name__
     if name == "FramedIpAddressAVP":
         v = bytes([10]) + lv.bytes(3)
-        return cls(v), v
+        return v, v
     if t in OCTET_LIKE:
         v = lv.bytes(L)
-        return cls(v), v
+        return v, v
     if t == "Unsigned32":
         if intpath:
             n = lv.int(0, 2 ** 32 - 1)
-            return cls(n), n.to_bytes(4, "big")
+            return n, n.to_bytes(4, "big")
         v = lv.bytes(4)
-        return cls(v), v
+        return v, v
     if t == "Unsigned64":
         if intpath:
             n = lv.int(0, 2 ** 63 - 1)
-            return cls(n), n.to_bytes(8, "big")
+            return n, n.to_bytes(8, "big")
         v = lv.bytes(8)
-        return cls(v), v
+        return v, v
     if t in ("Integer32", "Time"):
         v = lv.bytes(4)
-        return cls(v), v
+        return v, v
     if t == "Enumerated":
         vals = list(cls.values)
         i = lv.int(0, len(vals) - 1)
         v = vals[i]
-        return cls(v), v
+        return v, v
     if t == "Address":
         v = b"\x00\x01" + lv.bytes(4)
-        return cls(v), v
+        return v, v
     if t == "DiameterURI":
         u = URIS[(depth + L) % len(URIS)]
-        return cls(u), u.encode()
+        return u, u.encode()
     if t == "Grouped":
         members, ref = [], b""
         table = list(getattr(cls, "mandatory", {}).values())
@@ -151,8 +151,14 @@ def build(cls, lv, L=3, depth=0, max_depth=4, opt=False, intpath=True):
             g = DiameterAVP(code=99999, flags=0x40, data=data)
             members.append(g)
             ref += ref_avp(99999, 0x40, None, data)
-        return cls(members), ref
+        return members, ref
     raise KeyError(f"no value factory for {name} of type {t}")
+
+
+def build(cls, lv, L=3, depth=0, max_depth=4, opt=False, intpath=True):
+    """-> (instance, reference data bytes)"""
+    v, ref = value(cls, lv, L=L, depth=depth, max_depth=max_depth, opt=opt, intpath=intpath)
+    return cls(v), ref
 
 
 def ref_for(cls, ref_data, flags=None):
